@@ -270,4 +270,15 @@ theorem bindArgs_defaults (rest : List Param) (kw : List (String × String))
     | none => simp [hd] at hq
     | some v => simp [bindArgs, hq.2, hd, ih']
 
+/-- the exact midpoint passes `nearMid` for every non-negative tolerance -/
+theorem nearMid_exact (tol a c : Rat) (ht : 0 ≤ tol) (h : a ≤ c) : nearMid tol a c ((a + c) / 2) = true := by
+  have h0 : (a + c) / 2 - (a + c) / 2 = 0 := by grind
+  have h1 : a ≤ (a + c) / 2 := by grind
+  have h2 : (a + c) / 2 ≤ c := by grind
+  have h3 : (0 : Rat) ≤ max (if a < 0 then -a else a) (if c < 0 then -c else c) := by
+    have : (0 : Rat) ≤ (if a < 0 then -a else a) := by split <;> grind
+    grind
+  simp only [nearMid, h0, h1, h2, decide_true, Bool.true_and, decide_eq_true_eq]
+  simpa using Rat.mul_nonneg ht h3
+
 end SE.Proofs.Lemmas.Bounds
